@@ -144,6 +144,23 @@ def bounded(tier, seed, R):
                     R.fail("view_shape|mismatch", "view_shape(%r, %r) = %r, numpy says %r" % (shape, view, got, exp),
                            "import numpy as np\nfrom numpy import array\nfrom glue.utils.array import view_shape\nshape, view = %r, %r\n"
                            "sys.exit(0 if tuple(view_shape(shape, view)) == (tuple(shape) if view is None else np.zeros(shape)[view].shape) else 1)\n" % (shape, view))
+    # (d') the answer does not depend on earlier calls: views that compare (and hash) equal but index differently - an integer and the
+    # boolean scalar of equal value (x[1] drops an axis, x[True] adds one) - asked one after the other, in both orders
+    twins = [(1, True), (0, False), ((slice(1, 3), 1), (slice(1, 3), True)), ((Ellipsis, 0), (Ellipsis, False)), (np.int64(1), np.bool_(True)), ((0, 1), (False, True))]
+    for shape in ((3, 4), (2, 3, 2), (3,)):
+        for a_, b_ in twins:
+            for first, second in ((a_, b_), (b_, a_)):
+                for view in (first, second):
+                    try:
+                        exp = np.zeros(shape)[view].shape
+                    except IndexError:
+                        continue
+                    got = A.view_shape(shape, view)
+                    R.count(('vs-twins', shape, repr(first), repr(second), repr(view)), 'view_shape')
+                    if tuple(got) != tuple(exp):
+                        R.fail("view_shape|depends-on-earlier-calls", "view_shape(%r, %r) = %r after the calls with %r, numpy says %r" % (shape, view, tuple(got), [first, second], exp),
+                               "import numpy as np\nfrom glue.utils.array import view_shape\nshape = %r\nbad = 0\nfor view in (%r, %r):\n    bad += tuple(view_shape(shape, view)) != np.zeros(shape)[view].shape\n"
+                               "sys.exit(1 if bad else 0)\n" % (shape, first, second))
     # (e) categorical arrays
     alphabet = ['a', 'b', 'c']
     for n in range(1, 6):
